@@ -548,7 +548,10 @@ def _seg_config(ctx, idx):
                 segnum_spelling=r.choice(['list', 'tuple', 'ndarray']), int_spelling=r.choice(['int', 'int', 'np.int64', 'np.int32']),
                 entry=r.choice(['segread', 'Segmentation.from_dataset', 'segread-lazy']),
                 mfv=r.choice([255, 255, 8, 16, 100]) if typ == 'FRACTIONAL' else None,
-                float_dtype=r.choice(['float64', 'float32']))
+                float_dtype=r.choice(['float64', 'float32']),
+                # which tiles hold anything: independent per tile ('bernoulli') or only 1-3 tiles, the bottom-right corner tile and
+                # the tiles of the last tile row / column preferred ('few'); content of a live tile: dense or a single pixel
+                live_mode=r.choice(['bernoulli', 'bernoulli', 'few', 'few-single-pixel']))
 
 
 def _seg_mask(ctx, cfg):
@@ -558,14 +561,38 @@ def _seg_mask(ctx, cfg):
     R, C, th, tw, n = cfg['R'], cfg['C'], cfg['th'], cfg['tw'], cfg['nseg']
     nth, ntw = -(-R // th), -(-C // tw)
     live = np.zeros((R, C), dtype=bool)
-    for i in range(nth):
-        for j in range(ntw):
-            if r.random() >= cfg['p_empty']:
+    mode = cfg.get('live_mode', 'bernoulli')
+    if mode == 'bernoulli' or cfg['style'] == 'quantisation-boundary':
+        for i in range(nth):
+            for j in range(ntw):
+                if r.random() >= cfg['p_empty']:
+                    live[i * th:(i + 1) * th, j * tw:(j + 1) * tw] = True
+    else:
+        # few live tiles: the corner tile (partial in both directions when neither size divides) with probability 3/4, plus
+        # 0-2 others drawn with a preference for the last tile row / column
+        tiles = [(i, j) for i in range(nth) for j in range(ntw)]
+        weights = [1 + 3 * (i == nth - 1) + 3 * (j == ntw - 1) for (i, j) in tiles]
+        chosen = set()
+        if r.random() < 0.75:
+            chosen.add((nth - 1, ntw - 1))
+        for _ in range(r.choice([0, 1, 1, 2])):
+            chosen.add(r.choices(tiles, weights)[0])
+        if not chosen:
+            chosen.add(r.choice(tiles))
+        for (i, j) in chosen:
+            if mode == 'few-single-pixel':
+                ii = r.randrange(i * th, min(R, (i + 1) * th))
+                jj = r.randrange(j * tw, min(C, (j + 1) * tw))
+                live[ii, jj] = True
+            else:
                 live[i * th:(i + 1) * th, j * tw:(j + 1) * tw] = True
     if cfg['all_empty']:
         live[:] = False
+    few = mode != 'bernoulli' and cfg['style'] != 'quantisation-boundary'
     if cfg['style'] == 'labelmap':
         lab = nr.integers(0, n, size=(R, C), endpoint=True) * (nr.random((R, C)) < 0.6) * live
+        if few:     # every live pixel carries a label (a single live pixel must not come out as background)
+            lab = np.where(live & (lab == 0), nr.integers(1, n, size=(R, C), endpoint=True), lab)
         E = {s: (lab == s).astype(np.int64) for s in range(1, n + 1)}
         if cfg['type'] == 'FRACTIONAL':
             E = {s: e * (cfg.get('mfv') or 255) for s, e in E.items()}
@@ -595,31 +622,72 @@ def _seg_mask(ctx, cfg):
         if cfg['type'] == 'FRACTIONAL':
             mfv = cfg.get('mfv') or 255
             k = nr.integers(0, mfv, size=(R, C, n), endpoint=True) * (nr.random((R, C, n)) < 0.5) * live[..., None]
+            if few:
+                forced = np.eye(n, dtype=np.int64)[nr.integers(0, n, size=(R, C))] * live[..., None]
+                k = np.where((forced > 0) & (k == 0), nr.integers(1, mfv, size=(R, C, n), endpoint=True), k)
             arr = (k / float(mfv)).astype(np.float64)[None]
             E = {s: k[..., s - 1].astype(np.int64) for s in range(1, n + 1)}
         else:
             k = (nr.random((R, C, n)) < 0.4) * live[..., None]
+            if few:
+                k = k | ((np.eye(n, dtype=np.int64)[nr.integers(0, n, size=(R, C))] * live[..., None]) > 0)
             arr = k.astype(np.uint8)[None]
             E = {s: k[..., s - 1].astype(np.int64) for s in range(1, n + 1)}
     return arr, E
 
 
+def _refused_call(r, kind, typ, segs, R, C):
+    """keyword arguments of a `get_total_pixel_matrix` call the library refuses BY DESIGN; every kind except the last is refused
+    after the frame look-up (temporary channel table) has been set up, i.e. inside the context manager"""
+    n = len(segs)
+    if kind == 'combine-bool':                # bool cannot represent label 2
+        return dict(combine_segments=True, dtype=np.bool_)
+    if kind == 'combine-no-rescale':          # FRACTIONAL: combining needs rescaling
+        return dict(combine_segments=True, rescale_fractional=False)
+    if kind == 'rescaled-int-dtype':          # FRACTIONAL: rescaled fractions need a float dtype
+        return dict(rescale_fractional=True, dtype=np.uint8)
+    if kind == 'unknown-segment':
+        return dict(segment_numbers=list(segs) + [n + 1] if r.random() < 0.5 else [n + 1], rescale_fractional=False)
+    if kind == 'duplicate-segment':
+        s_ = r.choice(segs)
+        return dict(segment_numbers=[s_, s_] + ([x for x in segs if x != s_] if r.random() < 0.5 else []), rescale_fractional=False)
+    if kind == 'duplicate-segment-combined':
+        s_ = r.choice(segs)
+        return dict(segment_numbers=[x for x in segs if x != s_] + [s_, s_], combine_segments=True, relabel=r.random() < 0.5)
+    if kind == 'bad-dtype':
+        return dict(dtype=r.choice([np.complex64, 'U1']), rescale_fractional=False)
+    if kind == 'palette-without-combine':
+        return dict(apply_palette_color_lut=True, rescale_fractional=False)
+    if kind == 'region-out-of-range':         # refused BEFORE the look-up is set up
+        return dict(row_start=R + 1 + r.randrange(3), rescale_fractional=False)
+    raise KeyError(kind)
+
+
 def _seg_history(ctx, cfg, reader, E, segs, R, C, base_hist):
     """A HISTORY of operations on ONE tiled segmentation object: `pixel_array` accessed at a random step (after which the decoded
     frames are cached and later reads work on views of that cache), region reads with different options -- stacked / combined
-    (with and without relabel), raw / rescaled fractions, other dtypes -- in random order, identical reads repeated.  After EVERY
-    step: the result against the oracle, the cached frames and PixelData unchanged, repeated reads equal."""
+    (with and without relabel), raw / rescaled fractions, other dtypes -- for all segments or a SUBSET of them in any order, in
+    random order, identical reads repeated, and calls that are REFUSED by design in between (most of them refused only after the
+    temporary channel table of the frame look-up has been created, which then survives until the next read).  After EVERY step: the
+    result against the oracle, the cached frames and PixelData unchanged, repeated reads equal."""
     r = ctx.rng('seghist', cfg['idx'])
     mfv = cfg.get('mfv') or 255
     typ = cfg['type']
-    disjoint = all(int(np.sum([(E[s] > 0) for s in segs], axis=0).max()) <= 1 for _ in [0])
     binaryish = all(set(np.unique(E[s]).tolist()) <= {0, mfv if typ == 'FRACTIONAL' else 1} for s in segs)
     lazy = cfg['roundtrip'] and cfg.get('entry') == 'segread-lazy'
     cache = None
     seen = {}
-    steps = ['pixel_array'] + [r.choice(['stacked', 'stacked', 'combined', 'combined-relabel', 'rescaled', 'dtype', 'subset'])
-                               for _ in range(ctx.n(5, 7))]
+    refusals = ['combine-bool', 'unknown-segment', 'duplicate-segment', 'duplicate-segment-combined', 'bad-dtype',
+                'palette-without-combine', 'region-out-of-range']
+    if typ == 'FRACTIONAL':
+        refusals += ['combine-no-rescale', 'combine-no-rescale', 'rescaled-int-dtype', 'rescaled-int-dtype']
+    if len(segs) == 1:
+        refusals = [k for k in refusals if k != 'combine-bool']     # bool represents label 1
+    steps = ['pixel_array'] + [r.choice(['stacked', 'stacked', 'combined', 'combined', 'combined-relabel', 'rescaled', 'dtype', 'subset',
+                                         'refused', 'refused', 'refused'])
+                               for _ in range(ctx.n(7, 10))]
     r.shuffle(steps)
+    after_refusal = None
     for step_no, step in enumerate(steps):
         if step == 'pixel_array':
             if lazy:
@@ -629,12 +697,33 @@ def _seg_history(ctx, cfg, reader, E, segs, R, C, base_hist):
                 cache = np.array(pa, copy=True)
             ctx.case(request_class='history:pixel_array', outcome='ok' if st == 'ok' else pa.split(':')[0], **base_hist)
             continue
+        if step == 'refused':
+            kind = r.choice(refusals)
+            kw = _refused_call(r, kind, typ, segs, R, C)
+            st, val = _fetch(reader.get_total_pixel_matrix, **kw)
+            ctx.case(request_class='history:refused:' + kind, outcome='ok' if st == 'ok' else val.split(':')[0], **base_hist)
+            if st == 'ok' and kind == 'region-out-of-range':
+                ctx.fail({'seg': cfg, 'history_step': step_no, 'steps': steps[:step_no + 1], 'refused_call': kind},
+                         {'what': 'request outside the matrix was not refused'}, site='Segmentation.get_total_pixel_matrix')
+            if st == 'err':
+                after_refusal = kind
+            continue
         req = random_requests(r, R, C, cfg['th'], cfg['tw'], 1)[0] if r.random() < 0.7 else (None, None, None, None, False)
         if not modelable(req):
             continue
         rs, re, cs, ce, ai = req
         orc = oracle_region(R, C, req)
-        sub = list(segs) if step != 'subset' or len(segs) == 1 else sorted(r.sample(segs, r.randint(1, len(segs) - 1)))
+        # segment subset: all, or a proper subset in any order (a read directly after a refused call: mostly a smaller subset)
+        p_sub = 0.8 if after_refusal else 0.4
+        if len(segs) > 1 and (step == 'subset' or r.random() < p_sub):
+            sub = r.sample(segs, r.randint(1, len(segs) - 1))
+            if r.random() < 0.5:
+                sub.sort()
+        else:
+            sub = list(segs)
+            if len(sub) > 1 and r.random() < 0.3:
+                r.shuffle(sub)          # all segments, in another order than stored
+        disjoint = int(np.sum([(E[s] > 0) for s in sub], axis=0).max()) <= 1
         kw = dict(segment_numbers=sub, as_indices=ai)
         if step in ('combined', 'combined-relabel'):
             kw.update(combine_segments=True, relabel=(step == 'combined-relabel'))
@@ -645,8 +734,12 @@ def _seg_history(ctx, cfg, reader, E, segs, R, C, base_hist):
         else:
             kw.update(combine_segments=False, rescale_fractional=False)
         st, val = _fetch(reader.get_total_pixel_matrix, row_start=rs, row_end=re, column_start=cs, column_end=ce, **kw)
-        case = {'seg': cfg, 'history_step': step_no, 'steps': steps[:step_no + 1], 'request': list(req), 'segments': sub}
-        ctx.case(request_class='history:' + step, outcome='ok' if st == 'ok' else val.split(':')[0], **base_hist)
+        case = {'seg': cfg, 'history_step': step_no, 'steps': steps[:step_no + 1], 'request': list(req), 'segments': sub,
+                'after_refused_call': after_refusal}
+        ctx.case(request_class='history:' + step, outcome='ok' if st == 'ok' else val.split(':')[0],
+                 history_subset=('all' if len(sub) == len(segs) else 'subset') + ('-sorted' if sub == sorted(sub) else '-permuted'),
+                 history_after=('refused:' + after_refusal) if after_refusal else 'read', **base_hist)
+        designed_refusal = False
         key = (tuple(req), step, tuple(sub), str(kw.get('dtype')))
         # ---- oracle for this step
         if orc[0] == 'refuse':
@@ -671,11 +764,12 @@ def _seg_history(ctx, cfg, reader, E, segs, R, C, base_hist):
                                 'got': got.tolist() if got.size <= 48 else '...', 'want': exp.tolist() if exp.size <= 48 else '...'},
                          site='Segmentation.get_total_pixel_matrix')
         elif st == 'err' and orc[0] == 'ok' and orc[1] < orc[2] and orc[3] < orc[4]:
-            # combining is refused by design for overlapping segments or non-binary fractions
-            designed = step in ('combined', 'combined-relabel') and (not disjoint or not binaryish)
-            if not designed:
+            # combining is refused by design for overlapping segments (of the requested subset) or non-binary fractions
+            designed_refusal = step in ('combined', 'combined-relabel') and (not disjoint or not binaryish)
+            if not designed_refusal:
                 ctx.fail(case, {'what': 'valid read refused in a history of reads on one object', 'error': val},
                          site='Segmentation.get_total_pixel_matrix')
+        after_refusal = ('designed:' + step) if (st == 'err' and designed_refusal) else None if st == 'ok' else after_refusal
         # ---- repeated identical reads agree
         if st == 'ok':
             if key in seen and not (np.asarray(val).shape == seen[key].shape and np.array_equal(np.asarray(val), seen[key])):
@@ -723,9 +817,17 @@ def _check_seg(ctx, cfg, reqs, pending):
                      max_fractional_value=str(cfg.get('mfv')), float_dtype=cfg.get('float_dtype') if cfg['style'] == 'quantisation-boundary' else 'n/a',
                      org_spelling=cfg.get('org_spelling', 'str'), remainder=(min(R % th, 2), min(C % tw, 2)),
                      tile_spelling=cfg.get('tile_spelling', 'tuple') if cfg['tile'] is not None else 'default',
-                     entry=cfg.get('entry', 'segread') if cfg['roundtrip'] else 'constructor')
+                     entry=cfg.get('entry', 'segread') if cfg['roundtrip'] else 'constructor',
+                     live_tiles=cfg.get('live_mode', 'bernoulli') if cfg['style'] != 'quantisation-boundary' else 'n/a')
     segs = list(range(1, n + 1))
     mats = [E[s].tolist() for s in segs]
+    # the bottom-right corner tile: partial in both directions / one / none, and does it hold anything; how many tiles hold anything
+    anyseg = np.sum([E[s] != 0 for s in segs], axis=0) > 0
+    nth_, ntw_ = -(-R // th), -(-C // tw)
+    live_tiles = sum(bool(anyseg[i * th:(i + 1) * th, j * tw:(j + 1) * tw].any()) for i in range(nth_) for j in range(ntw_))
+    base_hist['corner_tile'] = (('partial-both' if R % th and C % tw else 'partial-one' if R % th or C % tw else 'whole') + '/' +
+                                ('live' if anyseg[(nth_ - 1) * th:, (ntw_ - 1) * tw:].any() else 'empty') + '/' +
+                                ('only' if live_tiles == 1 else 'few' if live_tiles <= 3 else 'many') + '-live-tiles')
     if st == 'err':
         ctx.case(outcome='constructor:' + seg.split(':')[0], request_class='construct', **base_hist)
         if not expect_refusal:
